@@ -98,6 +98,26 @@ func groupPtr(p *workflow.Plan, b *workflow.Block, g string) **workflow.Checks {
 	return &b.DeferredChecks
 }
 
+// modelShape is the shape in the format of spec/Engine.tla (every group key present).
+func modelShape(sh Shape) ev {
+	full := func(g map[string]int) ev {
+		m := ev{}
+		for _, k := range groupOrder {
+			m[k] = g[k]
+		}
+		return m
+	}
+	blocks := []any{}
+	for _, b := range sh.Blocks {
+		conc := b.Conc
+		if conc < 1 {
+			conc = 1
+		}
+		blocks = append(blocks, ev{"g": full(b.G), "seqs": b.Seqs, "conc": conc, "tol": b.Tol})
+	}
+	return ev{"pg": full(sh.PG), "blocks": blocks, "retries": sh.Retries, "cretries": sh.CRetries}
+}
+
 func (sc *Scenario) timeout() time.Duration {
 	if sc.TimeoutMs > 0 && sc.TimeoutMs < 5000 {
 		return 0 // injected after validation
@@ -410,7 +430,7 @@ func runEngine(rec *recorder, sc *Scenario) error {
 		}
 		s.emit(pl, func() ev {
 			return ev{"ev": "Config", "objs": pr.descs, "blocks": pr.blocks, "retries": sc.Shape.Retries, "cretries": sc.Shape.CRetries, "mode": s.mode,
-				"tag": sc.Tag, "nplans": sc.NPlans, "crashk": -1, "crashj": -1, "fn": sc.Fn}
+				"tag": sc.Tag, "nplans": sc.NPlans, "crashk": -1, "crashj": -1, "fn": sc.Fn, "mshape": modelShape(sc.Shape)}
 		})
 	}
 	stopPoll := make(chan struct{})
